@@ -24,3 +24,12 @@ package sqlc
 //@   property C06
 //@   ensures cacheDels == old(cacheDels) + 1 && result == cacheDelErr
 //@   modifies cacheDels, cacheDelErr
+
+// C14: the non-ctx entry hands the caller's body to the transaction unchanged: one call of fn per activation, its error
+// returned as is, and a panic of fn propagates (it is the transaction layer, not this adapter, that turns it into a rollback).
+//@ func (cc CachedConn) Transact closure 0
+//@   property C14
+//@   flag callbacks_noheap
+//@   requires fn != nil
+//@   ensures calls(fn) == old(calls(fn)) + 1 && result == ret(fn) && !panicked(fn)
+//@   ensures_panic calls(fn) == old(calls(fn)) + 1 && panicked(fn)
